@@ -29,12 +29,20 @@
 (***************************************************************************)
 EXTENDS Integers, Sequences, FiniteSets, TLC, Tables_api
 
-CONSTANT Writes        \* "none" | "asShipped"
+CONSTANTS Writes,       \* "none" | "asShipped"
+          FullMasks     \* BOOLEAN: every subset of array slots write-protected (thorough) or a selection (quick)
 
 NSlots(k_) == Len(Api[k_].kinds)
 Shares(k_) == {<<0, 0>>} \cup Api[k_].pairs
 ArraySlots(k_) == {i_ \in 1..NSlots(k_) : Api[k_].kinds[i_] \in {"A", "G"}}
-Ros(k_) == {0} \cup (IF ArraySlots(k_) = {} THEN {} ELSE {-1}) \cup ArraySlots(k_)
+\* read-only masks are bit masks over the slots (bit i-1 set = slot i write-protected).  FullMasks =
+\* FALSE (quick tier): nothing, everything, each single array slot; TRUE (thorough): every subset.
+RECURSIVE Pow2(_)
+Pow2(n_) == IF n_ = 0 THEN 1 ELSE 2 * Pow2(n_ - 1)
+RECURSIVE MaskOf(_)
+MaskOf(ss_) == IF ss_ = {} THEN 0 ELSE LET x_ == CHOOSE y_ \in ss_ : TRUE IN Pow2(x_ - 1) + MaskOf(ss_ \ {x_})
+Ros(k_) == IF FullMasks THEN {MaskOf(ss_) : ss_ \in SUBSET ArraySlots(k_)}
+           ELSE {0, MaskOf(ArraySlots(k_))} \cup {Pow2(i_ - 1) : i_ \in ArraySlots(k_)}
 Cbs(k_) == IF Api[k_].cbs = {} THEN {"none"} ELSE Api[k_].cbs
 WellFormed(p_) ==
     /\ p_[1] \in 1..Len(Api)
@@ -85,7 +93,7 @@ ProgramsWellFormed == pc \in {"bound", "done"} => WellFormed(prog)
 \* every shareable pair occurs shared, every callback mode occurs
 Complete ==
     \A k_ \in 1..Len(Api) :
-        /\ \A s_ \in ArraySlots(k_) : WellFormed(<<k_, <<0, 0>>, s_, CHOOSE c_ \in Cbs(k_) : TRUE>>)
+        /\ \A s_ \in ArraySlots(k_) : WellFormed(<<k_, <<0, 0>>, Pow2(s_ - 1), CHOOSE c_ \in Cbs(k_) : TRUE>>)
         /\ \A pr_ \in Api[k_].pairs : pr_[1] < pr_[2] /\ pr_[2] <= NSlots(k_)
                                       /\ Api[k_].kinds[pr_[1]] = Api[k_].kinds[pr_[2]]
 Emit == pc = "bound" => PrintT(<<"PROG", prog[1], Api[prog[1]].op, prog[2], prog[3], prog[4]>>)
